@@ -3,7 +3,11 @@
 Oracle: exact rational conversion (vf/ref/c17_exact.py: Fraction scales from vf/ref/defs.py) compared with the observed
 result at the spacing of the IEEE formats on the route (result format for conversions, per-operand formats for binary
 ufuncs); dtype rule max(2, itemsize) for integer input, width kept
-for float/complex; copy and in-place routes compared with each other; warnings recorded with warnings.catch_warnings."""
+for float/complex; copy and in-place routes compared with each other; warnings recorded with warnings.catch_warnings.
+History monitor (batches hist/<dtype>/<route>): one child converts each ordered unit pair first with one dtype through one
+route and then with every dtype through every route; every later result is judged by the same oracle at its own float
+type, and a failing observation is repeated by a pristine twin process (vf/monitors/c17_pristine.py) to decide whether it
+depends on what was converted before (key C17:history:...:after-<first dtype>-first) or not (the ordinary key)."""
 import math
 import warnings
 from fractions import Fraction as Fr
@@ -16,7 +20,9 @@ from vf.ref import c17_exact as X
 RULE = ("one evaluation = one observed result object (array, 0-d array or quantity; or one required-warning observation; or one "
         "copy/in-place pair) judged against the exact rational conversion rounded to the float format(s) of the route, "
         "its dtype rule, and the RuntimeWarning rule.  distinct cell = (sub-monitor, route or ufunc/form, input dtype(s), unit "
-        "pair, container form) with at least one non-zero, non-identity value")
+        "pair, container form) with at least one non-zero, non-identity value.  History batches: one evaluation = one such "
+        "result observed in a process whose FIRST conversion of that ordered unit pair was made with a named dtype through a named "
+        "route (the first conversion is itself judged); distinct cell = (history, first dtype, first route) + the cell above")
 ASSUMPTIONS = (
     "trusted base: NumPy casting/promotion, Python Fraction arithmetic, vf/ref/defs.py exact unit definitions, "
     "vf/ref/names.py name resolution; the unit *label* of a result is read from str(result.units) and interpreted by the reference",
@@ -51,6 +57,21 @@ ASSUMPTIONS = (
     "copy/in-place agreement: same dtype and values within 2K ulp (each route has its own rounding sequence); a dtype "
     "disagreement already reported as a dtype violation of one of the two routes is not reported twice",
     "longdouble/clongdouble results are judged at float64 spacing (the conversion factor is a float64)",
+    "dtype histories: the property quantifies over inputs, not over process states, so a result owes the same exact value at "
+    "its own float type whatever the process converted before; the history batches use the same oracle and tolerances as the "
+    "isolated ones (no bit-identity demand between histories: a leak below K ulp of the result's own type is not a violation)",
+    "history control: a failing observation is repeated, from the same plain data, in a grandchild of a twin process forked "
+    "before the batch converted anything; identical key in the twin -> reported under the ordinary key (not history dependent, "
+    "so known findings keep their keys); twin holds or fails differently -> C17:history:<ordinary key>:after-<first dtype "
+    "class>-first; twin unavailable -> reported under the history key with that remark (never dropped).  The twin is asked once "
+    "per (key, unit pair) and batch, once per key for dtype keys (the key names the whole observable)",
+    "history workload: first dtypes float16/float32/int16/int32 (narrow) and float64/complex128/int64/uint64 (wide), thorough "
+    "also complex64/uint16/uint32/int8/uint8; first routes to, in_units, to_value, convert_to_units, in_base, convert_to_base, "
+    "mixed-unit add, floor_divide and Unit.get_conversion_factor(other, dtype) (a public call that is only a driver, its return "
+    "value is not judged); base routes start a history only on pairs whose destination is the mks base equivalent, binary "
+    "ufuncs only on pairs without offset/EM units; equivalence routes have no per-pair factor and are not part of histories",
+    "true_divide whose dimensionless unit factor (J/erg) is not a normal number of the narrow float holding the quotient is the "
+    "factor-outside-float-range mechanism (keyed like the conversion routes), not a plain value failure",
 )
 MIN_EVALS = 20000
 TIMEOUT = 1500
@@ -1158,6 +1179,10 @@ def do_binary(unyt, rec, ufname, form, d0, d1, u0, u1, av, bv, A, B, s0, s1, K):
             elif raw_q is not None and (raw_q > Fq.max or (raw_q != 0 and raw_q < Fr(2) ** Fq.minexp)):
                 # the unscaled quotient is rounded into the narrow float before the dimensionless factor is applied
                 key = f"C17:true_divide/{fclass}:raw-quotient-out-of-float-range:float{8 * int(Fq.name[1:])}"
+            elif raw_q is not None and (s0 / s1 / sout > Fq.max or s0 / s1 / sout < Fr(2) ** Fq.minexp):
+                # the dimensionless factor of the two units (J/erg = 1e7, erg/J = 1e-7) is itself not a normal number of the
+                # narrow float the quotient is held in: same mechanism as the conversion routes' factor-outside-float-range
+                key = f"C17:true_divide/{fclass}:factor-outside-float-range:float{8 * int(Fq.name[1:])}"
             rec.violation(key, f"np.{ufname} ({form}) of {av[i]!r} {u0} ({d0}) and {bv[j]!r} {u1} ({d1}) gave {g!r} {label} "
                           f"({rdt}); exact: {show(shown) if not isinstance(shown, bool) else shown}", case)
             return
@@ -1383,7 +1408,9 @@ class History:
             if key in done:
                 continue
             done.add(key)
-            mk = (key, pair)
+            # a dtype key names the whole observable (input widths -> result dtype): once the twin fails with the identical
+            # key, the past makes no difference to it on any pair; value keys are decided per pair
+            mk = (key, None) if ":dtype:" in key else (key, pair)
             if mk not in self.memo:
                 try:
                     seen = dict(self.twin.run(case))
@@ -1446,7 +1473,7 @@ def run_history(unyt, rec, first_dt, first_route, tier, seed, r):
         pairs = HIST_PAIRS_QUICK + (r.sample(HIST_PAIRS_MORE, 6) if thorough else [])
         routes = ["to", "in_units", "to_value", "convert_to_units"] + (["to(Unit)"] if thorough else [])
         broutes = ["in_base", "convert_to_base"] + (["in_mks", "convert_to_mks"] if thorough else [])
-        forms = ["arr1d", "quantity", "strided"] if thorough else ["arr1d", "quantity"]
+        forms = ["arr1d", "quantity"]                     # thorough: arr1d plus one drawn from the other container forms
         H = History(unyt, rec, first_dt, first_route, twin)
         for (src, dst, base, binok) in pairs:
             pair = (src, dst)
@@ -1469,7 +1496,8 @@ def run_history(unyt, rec, first_dt, first_route, tier, seed, r):
             for dt in later:
                 vals, scal = hist_conv_vals(dt, tier, seed)
                 todo = [("conv", rt, dt, form, src, dst, vals if form not in ("quantity", "0d") else scal)
-                        for rt in routes + (broutes if base else []) for form in forms]
+                        for rt in routes + (broutes if base else [])
+                        for form in (forms if not thorough else ["arr1d", r.choice(["quantity", "strided", "0d", "arr2d"])])]
                 if binok:
                     for d0 in ([dt, r.choice(["f8", "i4", "f2", "c8"])] if thorough and r.random() < 0.5 else [dt]):
                         rb = core.rng(seed, "hist-bvals", d0, dt)
